@@ -606,6 +606,7 @@ def check_C09(tier):
     def scheds(v, sc, rng):
         out, extra = [], {}
         joinind_C10(v, sc)   # the timing clause of C09 is part of the same inductive invariant
+        uniteind(v, sc)
         for what in ("join", "unite"):
             s, info = tlc_schedules(v, sc, rng, what, n_of(tier, 600, 20000))
             out += s
@@ -632,6 +633,21 @@ JOININD_TWINS = [
     ("JoinEarly", "Timeouted == now - passAt >= tmo ", "Timeouted == now - passAt >= tmo - per ",
      "elapsed time rounded up to the ticker period: a short slice leaves early (C09 timing clause, seeded change C09-e)"),
 ]
+
+
+UNITEIND_TWINS = [
+    ("UniteFit", "       ELSE IF m + n > js THEN\n", "       ELSE IF m + n >= js THEN\n", "fit test weakened to >=: a non-maximal slice leaves (seeded change C09-b)"),
+    ("UniteFwd", "         LET rest == 0 IN ", "         LET rest == n IN ", "an oversized input slice forwarded without passing the accumulation first (seeded change C09-d)"),
+    ("UniteOver", "         /\\ n' = (IF n + m >= js THEN 0 ELSE n + m)\n", "         /\\ n' = n + m\n", "the final len(join) >= JoinSize test dropped"),
+]
+
+
+def uniteind(v, sc):
+    """size clauses of C03 / C09 / C11 for unite, for EVERY JoinSize and every sequence of input slice lengths: UniteInd.tla, Apalache"""
+    apalache_inductive(v, sc, "UniteInd", UNITEIND_TWINS, "apalache_inductive_unite_sizes", stage_specs)
+    v.notes.append("unite size clauses (no empty output, accumulated output <= JoinSize, maximal unless cut by the ticker or last, an input slice of >= JoinSize "
+                   "elements leaves on its own after everything accumulated before it) proved inductive for every JoinSize and every sequence of "
+                   "slice lengths on UniteInd.tla (Apalache); twins: " + "; ".join(t[3] for t in UNITEIND_TWINS) + " - each rejected")
 
 
 def joinind_C10(v, sc):
@@ -717,6 +733,7 @@ def check_C11(tier):
 
     def scheds(v, sc, rng):
         out, extra = [], {}
+        uniteind(v, sc)
         s, info = tlc_schedules(v, sc, rng, "unite", n_of(tier, 800, 40000))
         out += s
         extra["graph_unite"] = info
